@@ -6,6 +6,11 @@
 (* "junk" = bytes that are no whole piece (never accepted), "reset" = the next child process, "end" =    *)
 (* the last child has ended (both only once every thread has written everything).  Taking and releasing  *)
 (* the lock is not visible on the stream: silent steps, taken for the thread of the next piece.          *)
+(* With Locked = FALSE (Trace_ConsoleStream_unlocked.cfg) the same specification reads the stream of     *)
+(* threads that use the public ConsoleWriter without lock(): pieces of different threads alternate in    *)
+(* any order, but every piece - and every style request's escape sequence, which the parent drops only   *)
+(* when it is well-formed and turns into "junk" otherwise - arrives as one unit.  (All Parts pieces are    *)
+(* text pieces there; a line end is not a piece.)                                                        *)
 EXTENDS ConsoleStream, Json, IOUtils, TLC, TLCExt
 Rec == ndJsonDeserialize(IOEnv.TRACE)
 VARIABLE l
@@ -17,8 +22,8 @@ TReset == /\ Is("reset") /\ Done /\ \A t \in Threads : ~pos[t].held
           /\ stream' = <<>> /\ holder' = 0
           /\ pos' = [t \in Threads |-> [r |-> 1, a |-> 1, p |-> 1, held |-> FALSE]]
 TWrite == /\ Is("w") /\ Ev.t \in Threads /\ Write(Ev.t)
-          /\ pos[Ev.t].r = Ev.r /\ pos[Ev.t].a = Ev.a /\ pos[Ev.t].p = Ev.p /\ Ev.p < Parts
-TNl == Is("nl") /\ \E t \in Threads : pos[t].p = Parts /\ Write(t)
+          /\ pos[Ev.t].r = Ev.r /\ pos[Ev.t].a = Ev.a /\ pos[Ev.t].p = Ev.p /\ (Locked => Ev.p < Parts)
+TNl == Is("nl") /\ Locked /\ \E t \in Threads : pos[t].p = Parts /\ Write(t)
 SilentAcquire == l <= Len(Rec) /\ Ev.e = "w" /\ Ev.t \in Threads /\ Acquire(Ev.t) /\ UNCHANGED l
 SilentRelease == (\E t \in Threads : Release(t)) /\ UNCHANGED l
 TEnd == Is("end") /\ Done /\ (\A t \in Threads : ~pos[t].held) /\ UNCHANGED vars
